@@ -30,7 +30,7 @@ Print Assumptions null_never_becomes_text.
 (* AT DOCUMENT LEVEL (plain triples maps): a statement is materialised iff it is the statement of some asserted rule for some
    delivered row in which EVERY column the rule references holds a value that is neither NULL (None / NaN) nor a token of na_values;
    a row with a NULL or such a token in a referenced column gives nothing through that rule -- through the end-to-end theorem of C01 *)
-From Morph Require Import Model.Mapping Model.Spec Model.Fragment Proofs.TermP Proofs.RowSpecP Proofs.DocSpecP Proofs.DocEngineP Proofs.DocNullP.
+From Morph Require Import Base.UStr Model.Terms Model.Data Model.Engine Model.Mapping Model.Spec Model.Fragment Proofs.TermP Proofs.RowSpecP Proofs.DocSpecP Proofs.DocEngineP Proofs.DocNullP.
 Theorem statements_come_from_null_free_rows : forall cfg fe scfg raw d0 rules l,
   cfg_agree cfg scfg -> c_nquads cfg = s_nquads scfg -> s_na scfg = c_na cfg ->
   forallb plain_tm d0 = true -> normalise d0 = Ok rules -> (forall rl, In rl rules -> simple_rule rl) ->
